@@ -146,7 +146,13 @@ def _quick(seed):
 def _thorough(seed):
     S = X.std_sources("thorough")
     S = S[::3][:24]
-    ops = OPS.ALL
+    # not in this alphabet: binary matmul (its interior partial-product node is
+    # only defined up to the later sum over contraction blocks, so "a rewrite
+    # keeps the denotation of the node it replaces" does not apply to it; the
+    # whole-program phases of matmul programs are C01/C03's) and the
+    # dask-valued assignments added for C29 (fusion provenance over the
+    # inlined value graph was not adjudicated)
+    ops = [o for o in OPS.ALL if o.name not in ("b_matmul", "set_daskval", "set_daskval_mb")]
     shards = E.plan_shards(S, ops, 2)
     d3 = OPS.subset(names=X.D3_OPS)
     S3 = S[::4][:6]
